@@ -292,6 +292,8 @@ type outcome struct {
 	count   int
 	script  []byte
 	bad     string // harness-level problem (operands not on stack as intended)
+	// set when a stack copy of an operand (parked on the alt stack before the opcode) changed its value
+	aliasChanged string
 }
 
 const (
@@ -356,6 +358,14 @@ func runVM(op *opSpec, a []*big.Int, variant int, rng *vf.RNG) (out outcome, pan
 				code = append(code, byte(neovm.ADD))
 			}
 		}
+		// another stack copy of every operand (PICK ... TOALTSTACK) is parked on the alt stack before the
+		// opcode runs: stack items are values, an opcode must not change the copies it did not consume
+		if variant == varArith {
+			for i := range a {
+				code = pushBytes(code, neoBytes(big.NewInt(int64(len(a)-1-i))))
+				code = append(code, byte(neovm.PICK), byte(neovm.TOALTSTACK))
+			}
+		}
 		var e *neovm.Executor
 		defer func() {
 			if e != nil && recycle {
@@ -400,6 +410,21 @@ func runVM(op *opSpec, a []*big.Int, variant int, rng *vf.RNG) (out outcome, pan
 				out.errText = err.Error()
 			}
 			return
+		}
+		if variant == varArith {
+			// alt stack (top first): copy of operand len-1, ..., copy of operand 0
+			for i := range a {
+				v, aerr := e.AltStack.Peek(int64(len(a) - 1 - i))
+				if aerr != nil {
+					out.bad = "parked operand copy missing: " + aerr.Error()
+					return
+				}
+				got, gerr := v.AsBigInt()
+				if gerr != nil || got.Cmp(a[i]) != 0 {
+					out.aliasChanged = fmt.Sprintf("operand %d: the copy parked on the alt stack now reads %v, was %v", i, got, a[i])
+					break
+				}
+			}
 		}
 		out.count = e.EvalStack.Count()
 		top, perr := e.EvalStack.Peek(0)
@@ -548,6 +573,13 @@ func judge(r *vf.Run, l *local, op *opSpec, a []*big.Int, rng *vf.RNG, src strin
 			continue
 		}
 		l.c("variant_" + varName[variant])
+		if out.aliasChanged != "" {
+			violation(r, key("operand-copy-changed"), fmt.Sprintf("%s %v: %s", strings.ToUpper(op.name), decs(a), out.aliasChanged), wit(out.aliasChanged))
+			continue
+		}
+		if variant == varArith && !out.fault {
+			l.c("operand_copies_parked_on_alt_stack_checked")
+		}
 		switch {
 		case exp.fault:
 			if !out.fault {
